@@ -317,7 +317,7 @@ def rule_dep(repo):
     return res
 
 
-def rules(repo, tier):
+def _rules_core(repo, tier):
     from ..effects import rule_pure
     from ..fresh import rule_fresh
     t = [(IMU, CLS + '.forward'), (IMU, CLS + '.integrate'), (IMU, CLS + '.predict'), (IMU, CLS + '.propagate_cov'), (IMU, CLS + '._check')]
@@ -326,3 +326,11 @@ def rules(repo, tier):
                       'feeding the same stream again, whole or in chunks, starts from the same data', t),
             rule_fresh(repo, 'C16.FRESH', 'nothing the integrator writes in place is loaded from the integrator object (the carried state is rebound, '
                        'never accumulated into)', t)]
+
+
+def rules(repo, tier):
+    from ..memo import rule_memo
+    return list(_rules_core(repo, tier)) + [rule_memo(repo, 'C16.MEMO', 'history independence: nothing computed from the contents of a tensor argument is kept '
+                                                      'under the identity, address or version of that tensor, in module-level storage, or published from a generator '
+                                                      'before it is complete - a later call with the same object and other contents must not be answered from it',
+                                                      ['pypose.module.imu_preintegrator', 'pypose.basics.ops'], floor=3)]
